@@ -27,6 +27,9 @@ def check(repo, rep, tier):
     rep.run(rx.rule_lookups_agree, em, rep, 'C08.Q11')
     rep.run(rq.rule_values_never_inspected, em, rep, 'C08.Q12')
     rep.run(rx.rule_load_takes_all, em, rep, 'C08.Q13')
+    # after clear() the context is a new mapping: what was loaded or registered before is unknown again
+    from .. import rules_db as rd
+    rep.run(rd.rule_clear_resets, em, rep, 'C08.Q14')
     from .. import rules_compile as rc
     from .. import rules_clause as rcl
     rep.run(rcl.rule_calls_late_bound, rc.CompilerModel(repo), rep, 'C08.Q7')
